@@ -188,6 +188,9 @@ fn note_clone(raw: Option<u64>) -> u64 {
 
 trait Elem: Clone + Sized + 'static {
     const SIZE: usize;
+    /// identity-tracked (registered in the monitor); plain elements are not
+    const TRACKED: bool = true;
+    const NAME: &'static str = "el";
     fn new() -> Self;
     fn raw(&self) -> Option<u64>;
     /// a user callback producing a value
@@ -271,6 +274,39 @@ impl Drop for El4 {
     }
 }
 
+/// Plain elements (no drop glue, not tracked): only the prefix of such a ThinVec is observable.
+impl Elem for u8 {
+    const SIZE: usize = 1;
+    const TRACKED: bool = false;
+    const NAME: &'static str = "u8";
+    fn new() -> Self {
+        7
+    }
+    fn raw(&self) -> Option<u64> {
+        None
+    }
+}
+impl Elem for u64 {
+    const SIZE: usize = 8;
+    const TRACKED: bool = false;
+    const NAME: &'static str = "u64";
+    fn new() -> Self {
+        7
+    }
+    fn raw(&self) -> Option<u64> {
+        None
+    }
+}
+impl Elem for () {
+    const SIZE: usize = 0;
+    const TRACKED: bool = false;
+    const NAME: &'static str = "unit";
+    fn new() -> Self {}
+    fn raw(&self) -> Option<u64> {
+        None
+    }
+}
+
 /// Drop-tracked prefix with a `Default` that is a user callback.
 struct Pfx {
     id: u64,
@@ -297,6 +333,9 @@ impl Drop for Pfx {
 
 /// the value goes to the caller: recorded, never dropped through the callback
 fn give<E: Elem>(e: E) -> u64 {
+    if !E::TRACKED {
+        return u64::MAX;
+    }
     let raw = e.raw();
     note_out(raw, "return", Ev::Rt);
     std::mem::forget(e);
@@ -476,6 +515,8 @@ fn run_script<E: Elem>(it: &mut impl DoubleEndedIterator<Item = E>, script: &str
 }
 
 trait Cont: Sized {
+    /// elements are identity-tracked and the history is compared with the Lean model
+    const TRACKED: bool;
     fn config() -> String;
     fn fresh() -> Self;
     fn len_(&self) -> usize;
@@ -538,6 +579,7 @@ macro_rules! common_ops {
 }
 
 impl<E: Elem, const CAP: usize> Cont for InlineVec<E, CAP> {
+    const TRACKED: bool = E::TRACKED;
     fn config() -> String {
         format!("ivec {CAP}")
     }
@@ -551,7 +593,9 @@ impl<E: Elem, const CAP: usize> Cont for InlineVec<E, CAP> {
         self.capacity()
     }
     fn ids_(&self) -> Vec<Option<u64>> {
-        self.as_slice().iter().map(|e| e.raw()).collect()
+        // never read beyond the capacity, whatever the length claims
+        let n = self.len().min(self.capacity());
+        unsafe { std::slice::from_raw_parts(self.as_ptr(), n) }.iter().map(|e| e.raw()).collect()
     }
     fn apply(slot: &mut Option<Self>, op: &Op) -> Ret {
         let Some(v) = slot.as_mut() else { return Ret::Na };
@@ -655,8 +699,13 @@ impl PrefixKind for Pfx {
 const RT_CAP: usize = 16;
 
 impl<E: Elem, P: PrefixKind> Cont for thin::ThinVec<E, P> {
+    const TRACKED: bool = E::TRACKED;
     fn config() -> String {
-        format!("tvec {} {}", E::SIZE, P::NAME)
+        if E::TRACKED {
+            format!("tvec {} {}", E::SIZE, P::NAME)
+        } else {
+            format!("tvec-plain {} {}", E::NAME, P::NAME)
+        }
     }
     fn fresh() -> Self {
         thin::ThinVec::new()
@@ -668,7 +717,9 @@ impl<E: Elem, P: PrefixKind> Cont for thin::ThinVec<E, P> {
         self.capacity()
     }
     fn ids_(&self) -> Vec<Option<u64>> {
-        self.as_slice().iter().map(|e| e.raw()).collect()
+        // never read beyond the capacity, whatever the length claims
+        let n = self.len().min(self.capacity());
+        unsafe { std::slice::from_raw_parts(self.as_ptr(), n) }.iter().map(|e| e.raw()).collect()
     }
     fn apply(slot: &mut Option<Self>, op: &Op) -> Ret {
         let Some(v) = slot.as_mut() else { return Ret::Na };
@@ -849,35 +900,103 @@ fn strip_model(line: &str) -> String {
     }
 }
 
+#[derive(Clone)]
+struct Bad {
+    kind: &'static str,
+    /// index of the line (0 = configuration) at which it was observed
+    at: usize,
+    expected: String,
+    observed: String,
+    note: Option<String>,
+}
+
+#[derive(Clone)]
 struct CaseOut {
-    /// callback invocations of every operation (implementation side)
+    /// callback invocations of every executed operation (implementation side)
     calls: Vec<u64>,
     panicked: bool,
-    /// (kind, op index, expected = model, observed = implementation)
-    bad: Option<(&'static str, usize, String, String)>,
+    /// at most one entry of kind "monitor" (the run stops there) and one "impl-vs-model"
+    /// (the first differing line; the run continues so that the monitors see the rest)
+    bads: Vec<Bad>,
+}
+
+impl CaseOut {
+    fn has(&self, kind: &str) -> bool {
+        self.bads.iter().any(|b| b.kind == kind)
+    }
+}
+
+const RED_MSG: &str = "write beyond the end of a heap allocation (red zone damaged)";
+
+/// the two lines differ only in the order of their drop events
+fn order_only(model: &str, imp: &str) -> bool {
+    let split = |l: &str| -> Option<(String, Vec<String>)> {
+        let (h, t) = l.split_once(" | trace: ")?;
+        let mut e: Vec<String> = t.split(" ; ").map(|x| x.to_string()).collect();
+        e.sort();
+        Some((h.to_string(), e))
+    };
+    match (split(model), split(imp)) {
+        (Some(a), Some(b)) => a == b && model != imp,
+        _ => false,
+    }
+}
+
+/// Property monitors on the implementation's state after an operation (normal return or caught
+/// panic): `len <= capacity`; every slot below `len` holds a live tracked element, each once.
+fn state_violations<C: Cont>(slot: &Option<C>) -> Vec<String> {
+    let mut v = vec![];
+    let Some(c) = slot else { return v };
+    let (len, cap) = (c.len_(), c.cap_());
+    if len > cap {
+        v.push(format!("len {len} exceeds capacity {cap}"));
+    }
+    if C::TRACKED {
+        let ids = c.ids_();
+        let mut seen = std::collections::HashSet::new();
+        for (i, id) in ids.iter().enumerate() {
+            match id {
+                None => v.push(format!("slot {i} below len {len} is uninitialised")),
+                Some(id) => {
+                    let st = mon(|m| m.state.get(*id as usize).copied().unwrap_or(0));
+                    if st != 1 {
+                        v.push(format!(
+                            "slot {i} below len {len} holds the dead (dropped/returned) id #{id}"
+                        ));
+                    }
+                    if !seen.insert(*id) {
+                        v.push(format!("id #{id} occurs twice below len {len}"));
+                    }
+                }
+            }
+        }
+    }
+    v
 }
 
 fn run_case<C: Cont>(drv: &mut Driver, hist: &Hist) -> Result<CaseOut, String> {
-    // model side: everything in one batch
-    let mut lines = vec![C::config()];
-    for (k, op) in hist {
-        if let Some(k) = k {
-            lines.push(format!("panic_at {k}"));
-        }
-        lines.push(op.line());
-    }
-    let answers = drv.batch(&lines).map_err(|e| e.to_string())?;
+    // model side: everything in one batch (tracked elements only)
     let mut model = Vec::new();
-    for (l, a) in lines.iter().zip(answers.iter()) {
-        if l.starts_with("panic_at") {
-            if a != "ok" {
-                return Err(format!("driver answered `{a}` to `{l}`"));
+    if C::TRACKED {
+        let mut lines = vec![C::config()];
+        for (k, op) in hist {
+            if let Some(k) = k {
+                lines.push(format!("panic_at {k}"));
             }
-        } else {
-            if a.starts_with("error") {
-                return Err(format!("driver answered `{a}` to `{l}`"));
+            lines.push(op.line());
+        }
+        let answers = drv.batch(&lines).map_err(|e| e.to_string())?;
+        for (l, a) in lines.iter().zip(answers.iter()) {
+            if l.starts_with("panic_at") {
+                if a != "ok" {
+                    return Err(format!("driver answered `{a}` to `{l}`"));
+                }
+            } else {
+                if a.starts_with("error") {
+                    return Err(format!("driver answered `{a}` to `{l}`"));
+                }
+                model.push(strip_model(a));
             }
-            model.push(strip_model(a));
         }
     }
 
@@ -886,22 +1005,48 @@ fn run_case<C: Cont>(drv: &mut Driver, hist: &Hist) -> Result<CaseOut, String> {
     take_red_hits();
     let mut canon = Canon::default();
     let mut slot: Option<C> = Some(C::fresh());
-    let mut out = CaseOut { calls: vec![], panicked: false, bad: None };
+    let mut out = CaseOut { calls: vec![], panicked: false, bads: vec![] };
     let obs = |slot: &Option<C>| match slot {
         Some(v) => (v.len_(), v.cap_(), v.ids_()),
         None => (0, 0, vec![]),
     };
-    let first = {
+    let monitor = |out: &mut CaseOut, at: usize, viol: Vec<String>| {
+        out.bads.push(Bad {
+            kind: "monitor",
+            at,
+            expected: "no property violation on the implementation".into(),
+            observed: viol.join("; "),
+            note: None,
+        });
+    };
+    let mismatch = |out: &mut CaseOut, at: usize, model: &str, line: String| {
+        if !out.has("impl-vs-model") {
+            let note = order_only(model, &line)
+                .then(|| "only the order of the drop events differs".to_string());
+            out.bads.push(Bad {
+                kind: "impl-vs-model",
+                at,
+                expected: model.to_string(),
+                observed: line,
+                note,
+            });
+        }
+    };
+    {
         let (len, cap, ids) = obs(&slot);
         let evs = mon(|m| std::mem::take(&mut m.events));
-        impl_line(&mut canon, &Ret::Ok, len, cap, &ids, 0, &evs)
-    };
-    if first != model[0] {
-        out.bad = Some(("impl-vs-model", 0, model[0].clone(), first));
+        let first = impl_line(&mut canon, &Ret::Ok, len, cap, &ids, 0, &evs);
+        if C::TRACKED && first != model[0] {
+            mismatch(&mut out, 0, &model[0], first);
+        }
+        let viol = state_violations(&slot);
+        if !viol.is_empty() {
+            monitor(&mut out, 0, viol);
+        }
     }
     let mut dropped_cap = 0;
     for (i, (k, op)) in hist.iter().enumerate() {
-        if out.bad.is_some() {
+        if out.has("monitor") {
             break;
         }
         mon(|m| {
@@ -924,40 +1069,43 @@ fn run_case<C: Cont>(drv: &mut Driver, hist: &Hist) -> Result<CaseOut, String> {
         let (evs, calls, mut viol) =
             mon(|m| (std::mem::take(&mut m.events), m.calls, std::mem::take(&mut m.violations)));
         if take_red_hits() > 0 {
-            viol.push("write beyond the end of a heap allocation (red zone damaged)".into());
+            viol.push(RED_MSG.into());
         }
+        viol.extend(state_violations(&slot));
         out.calls.push(calls);
         let line = impl_line(&mut canon, &ret, len, cap, &ids, calls, &evs);
+        if C::TRACKED && line != model[i + 1] {
+            mismatch(&mut out, i + 1, &model[i + 1], line);
+        }
         if !viol.is_empty() {
-            out.bad = Some(("monitor", i + 1, "no monitor violation".into(), viol.join("; ")));
-        } else if line != model[i + 1] {
-            out.bad = Some(("impl-vs-model", i + 1, model[i + 1].clone(), line));
+            monitor(&mut out, i + 1, viol);
         }
     }
-    // C14 exactly-once on the implementation side: no leak op, no panic, container dropped
-    if out.bad.is_none()
-        && !out.panicked
+    // C14 exactly-once on the implementation side: no leak op, no injected fault, container
+    // dropped: every id ever created (elements, prefixes) has been dropped or returned
+    if !out.has("monitor")
         && slot.is_none()
-        && !hist.iter().any(|(_, op)| op.leaks())
+        && !hist.iter().any(|(k, op)| k.is_some() || op.leaks())
     {
         let live: Vec<usize> =
             mon(|m| m.state.iter().enumerate().filter(|(_, s)| **s == 1).map(|(i, _)| i).collect());
         if !live.is_empty() {
-            out.bad = Some((
-                "monitor",
-                hist.len(),
-                "every id dropped or returned after the final drop".into(),
-                format!("leaked ids {live:?}"),
-            ));
+            out.bads.push(Bad {
+                kind: "monitor",
+                at: hist.len(),
+                expected: "every element and prefix value ever created has been dropped or returned once the vector is dropped (no leak op, no fault)".into(),
+                observed: format!("never dropped: ids {live:?}"),
+                note: None,
+            });
         }
     }
     drop(slot);
     let mut viol = mon(|m| std::mem::take(&mut m.violations));
     if take_red_hits() > 0 {
-        viol.push("write beyond the end of a heap allocation (red zone damaged)".into());
+        viol.push(RED_MSG.into());
     }
-    if out.bad.is_none() && !viol.is_empty() {
-        out.bad = Some(("monitor", hist.len(), "no monitor violation".into(), viol.join("; ")));
+    if !out.has("monitor") && !viol.is_empty() {
+        monitor(&mut out, hist.len(), viol);
     }
     Ok(out)
 }
@@ -969,6 +1117,9 @@ fn run_case<C: Cont>(drv: &mut Driver, hist: &Hist) -> Result<CaseOut, String> {
 enum Cfg {
     I(usize),
     T(usize, bool),
+    /// ThinVec with a drop-tracked prefix and plain elements: 0 = u8, 1 = u64, 2 = ()
+    /// (implementation-side monitors only; the Lean model has tracked elements)
+    P(usize),
 }
 
 impl Cfg {
@@ -976,6 +1127,7 @@ impl Cfg {
         match self {
             Cfg::I(c) => format!("ivec {c}"),
             Cfg::T(e, p) => format!("tvec {e} {}", if *p { "tracked" } else { "reserved" }),
+            Cfg::P(k) => format!("tvec-plain {} tracked", ["u8", "u64", "unit"][*k]),
         }
     }
     fn parse(s: &str) -> Option<Cfg> {
@@ -984,11 +1136,14 @@ impl Cfg {
             ["ivec", c] => Some(Cfg::I(c.parse().ok()?)),
             ["tvec", e, "tracked"] => Some(Cfg::T(e.parse().ok()?, true)),
             ["tvec", e, "reserved"] => Some(Cfg::T(e.parse().ok()?, false)),
+            ["tvec-plain", "u8", "tracked"] => Some(Cfg::P(0)),
+            ["tvec-plain", "u64", "tracked"] => Some(Cfg::P(1)),
+            ["tvec-plain", "unit", "tracked"] => Some(Cfg::P(2)),
             _ => None,
         }
     }
     fn is_thin(&self) -> bool {
-        matches!(self, Cfg::T(..))
+        matches!(self, Cfg::T(..) | Cfg::P(_))
     }
     /// capacity of a fresh container
     fn cap0(&self) -> usize {
@@ -999,6 +1154,8 @@ impl Cfg {
                 32.. => 3,
                 n => 32 / n,
             },
+            // only a scale for the operation arguments (u8: 32, u64: 4, (): usize::MAX)
+            Cfg::P(_) => 4,
         }
     }
 }
@@ -1020,6 +1177,9 @@ fn run_cfg(cfg: Cfg, drv: &mut Driver, hist: &Hist) -> Result<CaseOut, String> {
         Cfg::T(32, true) => run_case::<thin::ThinVec<El32, Pfx>>(drv, hist),
         Cfg::T(64, false) => run_case::<thin::ThinVec<El64, Reserved>>(drv, hist),
         Cfg::T(64, true) => run_case::<thin::ThinVec<El64, Pfx>>(drv, hist),
+        Cfg::P(0) => run_case::<thin::ThinVec<u8, Pfx>>(drv, hist),
+        Cfg::P(1) => run_case::<thin::ThinVec<u64, Pfx>>(drv, hist),
+        Cfg::P(2) => run_case::<thin::ThinVec<(), Pfx>>(drv, hist),
         _ => Err(format!("unsupported configuration {cfg:?}")),
     }
 }
@@ -1154,8 +1314,12 @@ struct Stats {
     per_op: std::collections::BTreeMap<String, u64>,
     per_cfg: std::collections::BTreeMap<String, u64>,
     samples: Vec<serde_json::Value>,
-    disagreements: Vec<serde_json::Value>,
+    /// kind "monitor" (listed first, own cap) and kind "impl-vs-model"
+    monitors: Vec<serde_json::Value>,
+    mismatches: Vec<serde_json::Value>,
 }
+
+const CAP_PER_KIND: usize = 20;
 
 impl Stats {
     fn merge(&mut self, o: Stats) {
@@ -1172,11 +1336,19 @@ impl Stats {
         if self.samples.len() < 6 {
             self.samples.extend(o.samples.into_iter().take(2));
         }
-        for d in o.disagreements {
-            if self.disagreements.len() < 20 && !self.disagreements.contains(&d) {
-                self.disagreements.push(d);
+        for d in o.monitors {
+            if self.monitors.len() < CAP_PER_KIND && !self.monitors.contains(&d) {
+                self.monitors.push(d);
             }
         }
+        for d in o.mismatches {
+            if self.mismatches.len() < CAP_PER_KIND && !self.mismatches.contains(&d) {
+                self.mismatches.push(d);
+            }
+        }
+    }
+    fn disagreements(&self) -> Vec<serde_json::Value> {
+        self.monitors.iter().chain(self.mismatches.iter()).cloned().collect()
     }
 }
 
@@ -1244,12 +1416,15 @@ fn run_guarded(cfg: Cfg, drv: &mut Driver, hist: &Hist) -> Result<CaseOut, Strin
             Ok(CaseOut {
                 calls: vec![],
                 panicked: false,
-                bad: Some((
-                    "monitor",
-                    0,
-                    "the history runs to completion".into(),
-                    format!("panic outside the guarded operation while running this history: {msg}"),
-                )),
+                bads: vec![Bad {
+                    kind: "monitor",
+                    at: 0,
+                    expected: "the history runs to completion".into(),
+                    observed: format!(
+                        "panic outside the guarded operation while running this history: {msg}"
+                    ),
+                    note: None,
+                }],
             })
         }
     }
@@ -1258,7 +1433,7 @@ fn run_guarded(cfg: Cfg, drv: &mut Driver, hist: &Hist) -> Result<CaseOut, Strin
 /// delete operations / lower arguments while the same kind of disagreement persists
 fn shrink(cfg: Cfg, drv: &mut Driver, hist: &Hist, kind: &str) -> Hist {
     let fails = |drv: &mut Driver, h: &Hist| -> bool {
-        matches!(run_guarded(cfg, drv, h), Ok(CaseOut { bad: Some((k, ..)), .. }) if k == kind)
+        matches!(run_guarded(cfg, drv, h), Ok(out) if out.has(kind))
     };
     let mut cur = hist.clone();
     let mut progress = true;
@@ -1329,19 +1504,37 @@ impl Worker {
         if self.stats.samples.len() < 3 && hist.len() >= 3 && self.stats.evaluations % 97 == 5 {
             self.stats.samples.push(serde_json::json!(hist_lines(cfg, hist)));
         }
-        if let Some((kind, _, _, _)) = &out.bad {
-            if self.stats.disagreements.len() < 20 {
-                let small = shrink(cfg, &mut self.drv, hist, kind);
-                let again = run_guarded(cfg, &mut self.drv, &small)?;
-                let (kind, at, exp, obs) = again.bad.unwrap_or(out.bad.clone().unwrap());
-                self.stats.disagreements.push(serde_json::json!({
-                    "kind": kind,
-                    "input": hist_lines(cfg, &small),
-                    "at_op": at,
-                    "expected": exp,
-                    "observed": obs,
-                    "profile": self.profile,
-                }));
+        for kind in ["monitor", "impl-vs-model"] {
+            let Some(first) = out.bads.iter().find(|b| b.kind == kind) else { continue };
+            let full = if kind == "monitor" {
+                self.stats.monitors.len() >= CAP_PER_KIND
+            } else {
+                self.stats.mismatches.len() >= CAP_PER_KIND
+            };
+            if full {
+                continue;
+            }
+            let small = shrink(cfg, &mut self.drv, hist, kind);
+            let again = run_guarded(cfg, &mut self.drv, &small)?;
+            let b = again.bads.iter().find(|b| b.kind == kind).unwrap_or(first).clone();
+            let mut v = serde_json::json!({
+                "kind": b.kind,
+                "input": hist_lines(cfg, &small),
+                "at_op": b.at,
+                "expected": b.expected,
+                "observed": b.observed,
+                "profile": self.profile,
+            });
+            if let Some(n) = &b.note {
+                v["note"] = serde_json::json!(n);
+            }
+            let list = if kind == "monitor" {
+                &mut self.stats.monitors
+            } else {
+                &mut self.stats.mismatches
+            };
+            if !list.contains(&v) {
+                list.push(v);
             }
         }
         Ok(out.calls)
@@ -1366,12 +1559,6 @@ impl Worker {
             }
         }
         Ok(())
-    }
-}
-
-impl Clone for CaseOut {
-    fn clone(&self) -> Self {
-        CaseOut { calls: self.calls.clone(), panicked: self.panicked, bad: self.bad.clone() }
     }
 }
 
@@ -1608,6 +1795,13 @@ fn main() {
             (Cfg::T(4, false), 8, 2),
             (Cfg::T(16, true), 1, 2),
             (Cfg::T(64, false), 0, 2),
+            // tracked prefix, plain elements (no Lean line: implementation-side monitors)
+            (Cfg::P(0), 0, 3),
+            (Cfg::P(0), 2, 2),
+            (Cfg::P(1), 0, 2),
+            (Cfg::P(1), 2, 3),
+            (Cfg::P(2), 0, 2),
+            (Cfg::P(2), 2, 3),
         ];
         if thorough {
             jobs.extend([
@@ -1636,6 +1830,9 @@ fn main() {
             Cfg::T(32, true),
             Cfg::T(64, false),
             Cfg::T(64, true),
+            Cfg::P(0),
+            Cfg::P(1),
+            Cfg::P(2),
         ];
         let seed = cli.seed;
         let job = |me: usize| -> Result<Stats, String> {
@@ -1683,7 +1880,7 @@ fn main() {
     let stats = serde_json::json!({
         "evaluations": total.evaluations,
         "distinct_nontrivial": total.nontrivial,
-        "rule": "per operation: ret, len, capacity, ids (canonical), number of user-callback invocations and the mk/cl/dr/rt trace of the implementation equal the L0 model's; no monitor violation (double drop, drop/clone of uninitialised or dead value); no leak in fault-free leak-free histories",
+        "rule": "kind monitor (implementation alone, after every op incl. caught panics): len <= capacity; every slot below len holds a live tracked element exactly once; no id dropped/returned twice; no drop/clone of a dead or uninitialised element; no write beyond a heap allocation (red zones); after the final drop of fault-free leak-free histories every element and prefix value ever created has been dropped or returned. kind impl-vs-model (tracked-element configurations): per operation ret, len, capacity, ids (canonical), number of user-callback invocations and the mk/cl/dr/rt trace equal the L0 model's (a difference in the order of drop events only is flagged by a note). tvec-plain configurations (tracked prefix, u8/u64/() elements) are monitor-only",
         "exhaustive": exhaustive_flag,
         "distribution": {
             "faulted_histories": total.faulted,
@@ -1692,7 +1889,7 @@ fn main() {
             "per_op": total.per_op,
         },
         "samples": total.samples,
-        "disagreements": total.disagreements,
+        "disagreements": total.disagreements(),
     });
     if let Some(out) = &cli.out {
         if let Err(e) = std::fs::write(out, serde_json::to_string_pretty(&stats).unwrap()) {
@@ -1705,10 +1902,10 @@ fn main() {
         total.evaluations,
         total.faulted,
         total.panics,
-        total.disagreements.len()
+        total.disagreements().len()
     );
-    for d in &total.disagreements {
+    for d in &total.disagreements() {
         println!("  {}", d);
     }
-    std::process::exit(if total.disagreements.is_empty() { 0 } else { 1 });
+    std::process::exit(if total.disagreements().is_empty() { 0 } else { 1 });
 }
